@@ -91,6 +91,8 @@ def s2(tier):
         for cs in four_argshapes(o, c):
             for ctx in grammar.CONTEXTS:
                 for route in grammar.ROUTES:
+                    if ctx == 'result_attr' and route == 'partial':
+                        continue        # a partial object has no attribute every callee result has
                     if ctx == 'ifelse':
                         # two calls: same callee shape twice, and a second callee with one more optional parameter
                         other = c + (('zz', KWO, True),) if not space.has(c, VK) else c
